@@ -87,7 +87,9 @@ comprehensions, the eight hand-unrolled octant copies of
 lines) were applied together to a scratch worktree: all 20 checks stayed quiet
 (0 violations, 0 disagreements) - both after the second round and again at
 the end of the build, after six rounds of strengthening and three more repairs
-of `/repo` (one refactoring had to be rebased onto the repaired file accessor).
+of `/repo` (one refactoring had to be rebased onto the repaired file accessor);
+the twelve checks whose generators grew in the seventh round were run against
+the refactored tree once more, with the same result.
 
 """
 p = os.path.join(V, "DESIGN.md"); s = open(p).read()
